@@ -70,7 +70,7 @@ def run(rep, ctx):
     fn = [r"mp::ConstraintKeeper::(ComputeValue|ComputeViolations)", r"mp::ComputeValue", r"mp::ComputeValue::.*", r"mp::ComputeViolation",
           r"mp::[A-Za-z_0-9]+::ComputeViolation", r"mp::Violation::Check", r"mp::SolutionChecker::.*",
           r"mp::pre::ValuePresolver::PostsolveSolution", r"mp::ViolSummary::.*"]
-    d = export_closure(depth=1, roots=r"^mp::(ConstraintKeeper::ComputeViolations|SolutionChecker::CheckVars|Violation::)", unit=U, fn=fn, enum=[r"mp::Context::CtxVal", r"mp::sol::Status"], repo=repo)
+    d = export_closure(depth=1, roots=r"^mp::(ConstraintKeeper::ComputeViolations|SolutionChecker::CheckVars|Violation::|pre::ValuePresolver::PostsolveSolution)", unit=U, fn=fn, enum=[r"mp::Context::CtxVal", r"mp::sol::Status"], repo=repo)
     cg = export(U, callgraph=True, repo=repo)["callgraph"]
     F = Facts([d])
     rep.note_units([U])
@@ -656,13 +656,16 @@ def run(rep, ctx):
 
     h1 = rep.rule("C07.H1", "PATH", "the check runs in the postsolve of every solution", floor=1)
     ps = one("mp::pre::ValuePresolver::PostsolveSolution")
-    call = [n for n in ps.walk() if n["k"] == "CXXOperatorCallExpr" and n.get("op") == "()" and "solchk_" in render(n)]
-    okh = len(call) == 1
+    # the checker call, in PostsolveSolution itself or in a helper it calls; the conditions on the way are those of the
+    # helper call plus those inside the helper
+    reached_ = list(reach_calls(F, ps, lambda n: n["k"] == "CXXOperatorCallExpr" and n.get("op") == "()" and "solchk_" in render(kids(n)[1] if len(kids(n)) > 1 else n), depth=1))
+    okh = len(reached_) == 1
     if okh:
-        fa = sorted(nfacts(ps, call[0]))
+        a_, c_, r_, o_ = reached_[0]
+        fa = sorted(set(nfacts(ps, a_)) | (set(nfacts(o_, c_)) if o_ is not ps else set()))
         okh = ("solchk_", True) in [(t.replace("(bool)", ""), p_) for t, p_ in fa] or any("solchk_" in t and p_ is True for t, p_ in fa)
         okh = okh and ("mx.IsSingleKey()", True) in fa
-        a = [render(x) for x in call_args(call[0])[1:]]
-        okh = okh and a[:2] == ["mx()", "mv.GetConValues()"]
+        a = [xrender(o_, r_(x)).replace("this->", "") for x in call_args(c_)[1:]]
+        okh = okh and [t_.replace(" ", "") for t_ in a[:2]] in (["mx()", "mv.GetConValues()"], ["mv.GetVarValues()()", "mv.GetConValues()"])
     h1.check(okh, "postsolve-calls-checker", short_loc(ps.loc), "with a checker installed, every postsolved solution with values is passed to it")
     return rep
